@@ -159,6 +159,17 @@ impl Space for Main {
         let names = colliding_names(lens.len(), 32, 7);
         let mut files: Vec<(String, Vec<u8>)> =
             lens.iter().enumerate().map(|(k, &l)| (names[k].clone(), gen::content(gen::TEXTURES[t], l, cfg.sector(), k as u64))).collect();
+        // compression break-even sweep (shift 0, first texture, real codecs): one sector of k incompressible
+        // bytes followed by zeros for every k in a window: somewhere in it method byte + payload is exactly
+        // as long as the plain sector, the point where "stored raw" and "stored compressed" must be told apart
+        if cfg.shift == 0 && t == 0 && (1..=4).contains(&cfg.comp) {
+            let s = cfg.sector();
+            for k in ((s - 140)..=s).step_by(1) {
+                let mut d = gen::content("incompressible", k, s, 31);
+                d.resize(s, 0);
+                files.push((format!("sweep\\k{k:04}.bin"), d));
+            }
+        }
         // one name with non-ASCII characters (the MPQ hash folds ASCII only)
         files.push(("Dir\\\u{dc}n\u{ef}-c\u{f6}d\u{e9} \u{b5}.txt".to_string(), gen::content(gen::TEXTURES[t], 7, cfg.sector(), 99)));
         let path = self.scratch.path(&format!("a{i}.mpq"));
@@ -207,9 +218,109 @@ impl Space for Main {
     }
 }
 
+/// per-file options: one archive holds a file for every (compression x crypto) pair at once, so that state
+/// carried from one file to the next (flags, keys, positions) is exercised
+struct Mixed {
+    shifts: Vec<u16>,
+    radices: Vec<u64>, // order(2) crc(2) attrs(3) listfile(2) shift version(4)
+    scratch: Scratch,
+}
+impl Mixed {
+    fn new(tier: Tier) -> Mixed {
+        let shifts: Vec<u16> = tier.pick(vec![0, 3], vec![0, 1, 3, 5]);
+        Mixed { radices: vec![2, 2, 3, 2, shifts.len() as u64, 4], shifts, scratch: Scratch::new("c01m") }
+    }
+    fn decode(&self, i: u64) -> (Config, bool) {
+        let d = gen::mixed_radix(i, &self.radices);
+        (Config { comp: 1, crypto: 0, crc: d[1] == 1, attrs: d[2] as usize, listfile: d[3] == 0, tcomp: false, shift: self.shifts[d[4] as usize], version: d[5] as usize }, d[0] == 1)
+    }
+}
+impl Space for Mixed {
+    fn len(&self) -> u64 {
+        gen::product(&self.radices)
+    }
+    fn describe(&self, i: u64) -> Value {
+        let (cfg, rev) = self.decode(i);
+        let mut v = cfg.json();
+        v["compression"] = json!("per file: every codec");
+        v["crypto"] = json!("per file: plain, encrypted, encrypted+fixkey");
+        v["file_order_reversed"] = json!(rev);
+        v
+    }
+    fn case_timeout(&self) -> u64 {
+        120
+    }
+    fn run(&self, i: u64) -> CaseResult {
+        let (cfg, rev) = self.decode(i);
+        let mut r = CaseResult::new();
+        r.key = format!("mixed{i}");
+        let s = cfg.sector();
+        // lossless codecs only (0..=5), three crypto modes, two lengths (within one sector / three sectors)
+        let mut combos: Vec<(usize, usize, usize)> = vec![];
+        for comp in 0..6usize {
+            for crypto in 0..3usize {
+                for (li, _) in [s / 2 + 3, 2 * s + 9].iter().enumerate() {
+                    combos.push((comp, crypto, li));
+                }
+            }
+        }
+        if rev {
+            combos.reverse();
+        }
+        let names = colliding_names(combos.len(), 64, 11);
+        let mut b = cfg.builder();
+        let mut files: Vec<(String, Vec<u8>)> = vec![];
+        for (k, (comp, crypto, li)) in combos.iter().enumerate() {
+            let len = [s / 2 + 3, 2 * s + 9][*li];
+            let data = gen::content(gen::TEXTURES[k % 4], len, s, k as u64);
+            let c = Config { comp: *comp, crypto: *crypto, ..cfg.clone() };
+            b = c.add(b, &names[k], data.clone());
+            files.push((names[k].clone(), data));
+        }
+        let path = self.scratch.path(&format!("m{i}.mpq"));
+        match b.build(&path) {
+            Ok(()) => {
+                r.nontrivial = true;
+                r.outcome = "built".into();
+                check_archive(&cfg, &path, &files, &mut r);
+                r.count("archives_checked", 1);
+                r.count("files_checked", files.len() as u64);
+            }
+            Err(e) => {
+                // PKWare refuses inputs its imploder cannot round-trip: retry without the pkware files
+                let keep: Vec<usize> = (0..combos.len()).filter(|k| combos[*k].0 != 5).collect();
+                let mut b2 = cfg.builder();
+                let mut f2 = vec![];
+                for &k in &keep {
+                    let c = Config { comp: combos[k].0, crypto: combos[k].1, ..cfg.clone() };
+                    b2 = c.add(b2, &files[k].0, files[k].1.clone());
+                    f2.push(files[k].clone());
+                }
+                let _ = std::fs::remove_file(&path);
+                match b2.build(&path) {
+                    Ok(()) => {
+                        r.nontrivial = true;
+                        r.outcome = "built-without-pkware".into();
+                        check_archive(&cfg, &path, &f2, &mut r);
+                        r.count("archives_checked", 1);
+                        r.count("files_checked", f2.len() as u64);
+                    }
+                    Err(_) => {
+                        r.err_return = true;
+                        r.outcome = format!("build-err:{}", panic_class("", &e.to_string()));
+                    }
+                }
+            }
+        }
+        let _ = std::fs::remove_file(&path);
+        r
+    }
+}
+
 fn build(name: &str, _arg: &str, tier: Tier) -> Box<dyn Space> {
     match name {
         "main" => Box::new(Main::new(tier)),
+        "mixed" => Box::new(Mixed::new(tier)),
         _ => panic!("space {name}"),
     }
 }
@@ -220,6 +331,7 @@ fn main() {
     c.assume("ADPCM selectors are lossy: only length is compared for them, and the listing clause is not judged (the generated listfile itself is stored with the lossy default method)");
     c.assume("build() returning Err is a legitimate refusal (counted); the same files are then retried one per archive");
     c.assume("table compression is only a distinct configuration for V3/V4 (skipped for V1/V2)");
+    c.run_space("mixed", "");
     c.run_space("main", "");
     c.extra_cov.insert("axes".into(), json!({"version": 4, "shift": if c.tier == Tier::Quick { json!([0,1,3,5,8]) } else { json!("0..=8") }, "compression": COMP_NAMES, "crypto": CRYPTO_NAMES, "sector_crc": 2, "attributes": ATTR_NAMES, "listfile": 2, "table_compression": 2, "texture": gen::TEXTURES}));
     c.finish();
